@@ -87,9 +87,10 @@ pub fn check_module(m: &dr::Module, origin: &str, r: &mut Report, rp: &dyn Fn() 
     }
     let d = db();
     let mut reader = Reader::new();
+    reader.prescan(&body);
     for (i, (line, want)) in body.iter().zip(insts.iter()).enumerate() {
         let opname = d.lookup((want[0] & 0xffff) as u16).map(|x| x.opname.clone()).unwrap_or_default();
-        let type_before = want.get(1).and_then(|t| reader.types.get(*t));
+        let type_before = want.get(1).and_then(|t| reader.global_types.get(t).copied().or(reader.types.get(*t)));
         let inst = match reader.line(line) {
             Ok(x) => x,
             Err(e) => {
@@ -144,19 +145,20 @@ fn float_specials(rng: &mut Rng, ty: NumTy) -> Option<AVal> {
 
 pub fn run(cfg: &Cfg, rep: &mut Report) {
     rep.rule = "modules produced by the loader (layout-ordered generator output: every opcode over the run, every enum kind and mask reachable through opcodes, GLSL.std.450 / OpenCL.std / unknown imports with in- and out-of-table OpExtInst numbers, constants of every numeric type incl. negative, huge, +-0.0, +-inf, subnormal, 8/16-bit, NaN) and by the Builder (complete histories of the C06 generator): the disassembly's header comment is compared with the header fields (16 registered generator names), the number of lines with the number of assembled instructions, and every line is read back by an independent reader (specification vocabulary only) and re-encoded by the reference encoder; the words must equal assemble() exactly (NaN literals excepted). distinct_nontrivial = distinct (opcode, origin) pairs read back".into();
-    rep.assumptions.push("vocabulary = frozen reference names; modules are in logical-layout order (a constant or switch whose type is declared later in the stream is not generated)".into());
+    rep.assumptions.push("vocabulary = frozen reference names; modules are in logical-layout order; a module-scope constant may precede the declaration of its numeric type (it is then one word wide and rendered by the declared type)".into());
     let d = db();
     let n_ops = d.insts.len() as u64;
     let n = cfg.n(n_ops * 10, n_ops * 2500);
     run_stage(cfg, rep, "loader-modules", n, |idx, rng, r| {
         let must = (idx % n_ops) as usize;
-        let mut gen = Gen::new(1000);
+        let mut gen = Gen::with_id_policy(rng);
         gen.lit = if rng.chance(2, 3) { LitStyle::Random } else { LitStyle::Marker };
+        let import_ids = [gen.fresh(), gen.fresh(), gen.fresh()];
         let o = ModOpts { max_functions: 2, max_blocks: 2, max_block_insts: 4, max_per_section: 2, layout_order: true, must: vec![must, *d.by_name.get("ExtInst").unwrap()], memory_model: true };
         let sk = genmod::skeleton(rng, &o);
         let mut insts = genmod::instantiate(rng, &mut gen, &sk, Form::Random);
         // imports first, and OpExtInst instructions pointed at them
-        let imports = [(900_001u32, "GLSL.std.450"), (900_002, "OpenCL.std"), (900_003, "NonSemantic.Other")];
+        let imports = [(import_ids[0], "GLSL.std.450"), (import_ids[1], "OpenCL.std"), (import_ids[2], "NonSemantic.Other")];
         for i in insts.iter_mut() {
             if i.opname() == "ExtInst" && i.ops.len() >= 2 {
                 let (set, name) = *rng.pick(&imports);
@@ -167,7 +169,7 @@ pub fn run(cfg: &Cfg, rep: &mut Report) {
                     2 => *rng.pick(&[0u32, 1, 81, 82, 83, 162, 163, 204, 205, u32::MAX]),
                     _ => table[rng.below(table.len())].opcode,
                 };
-                i.ops[0] = AOp::id(if rng.chance(1, 8) { 77 } else { set });
+                i.ops[0] = AOp::id(if rng.chance(1, 8) { gen.fresh() } else { set });
                 i.ops[1] = AOp::w(K::LiteralExtInstInteger, num);
             }
         }
@@ -184,6 +186,22 @@ pub fn run(cfg: &Cfg, rep: &mut Report) {
         let last_ty = insts.iter().rposition(|i| matches!(i.opname().as_str(), "TypeInt" | "TypeFloat")).map(|p| p + 1).unwrap_or(0);
         for (k, s) in specials.into_iter().enumerate() {
             insts.insert(last_ty + k, s);
+        }
+        // sometimes a constant whose numeric type is declared only LATER in the module-scope part: it is
+        // parsed as one word, and must still be rendered according to the declared type
+        if rng.chance(1, 4) {
+            let first_ty = insts.iter().position(|i| matches!(i.opname().as_str(), "TypeInt" | "TypeFloat")).unwrap_or(0);
+            let t = gen.fresh();
+            let c = gen.fresh();
+            let ty = *rng.pick(&[NumTy::Int(32, true), NumTy::Int(64, true), NumTy::Int(16, true), NumTy::Int(32, false), NumTy::Float(32), NumTy::Float(64), NumTy::Int(48, true), NumTy::Float(16)]);
+            let word = *rng.pick(&[0x8000_0000u32, u32::MAX, 0x3f80_0000, 0xffff, 1, 0xc2f6_e979]);
+            insts.insert(first_ty, AInst::named("Constant", Some(t), Some(c), vec![AOp { kind: K::LiteralContextDependentNumber, val: AVal::W(word) }]));
+            let decl = match ty {
+                NumTy::Int(w, s) => AInst::named("TypeInt", None, Some(t), vec![AOp::lit(w), AOp::lit(s as u32)]),
+                NumTy::Float(w) => AInst::named("TypeFloat", None, Some(t), vec![AOp::lit(w)]),
+            };
+            let after = insts.iter().rposition(|i| matches!(i.opname().as_str(), "TypeInt" | "TypeFloat" | "Constant")).map(|p| p + 1).unwrap_or(insts.len());
+            insts.insert(after, decl);
         }
         pre.extend(insts);
         let generator = match rng.below(4) {
@@ -203,6 +221,16 @@ pub fn run(cfg: &Cfg, rep: &mut Report) {
                 }
             }
             _ => r.count("not_loaded", 1),
+        }
+    });
+    run_stage(cfg, rep, "scale", cfg.n(crate::scale::N_VARIANTS * 12, crate::scale::N_VARIANTS * 300), |idx, rng, r| {
+        let (label, insts) = crate::scale::scale_module(rng, idx % crate::scale::N_VARIANTS);
+        let (words, _m, _s) = genmod::encode_module(0x0001_0600, 0, 1 << 22, &insts, None);
+        let rp = || crate::util::replay_ref(cfg, "scale", idx).set("label", label.clone());
+        if let Ok(Ok(m)) = catch(|| dr::load_words(&words)) {
+            if check_module(&m, "scale", r, &rp) {
+                r.nontrivial(format!("scale:{}", label));
+            }
         }
     });
     // operand level: every enumerant of every value enum and every single bit / all bits / random
